@@ -5,20 +5,27 @@
 (* $ORIGIN / as @ / inherited by indentation; TTL and class written or      *)
 (* inherited ($TTL or last stated TTL; last class); TTL-class order;        *)
 (* spacing (SP, TAB, runs, CRLF), parenthesised continuation lines,         *)
-(* comments, blank lines; tokens plain / decimal-escaped / quoted.          *)
+(* comments, blank lines; tokens plain / decimal-escaped / quoted; "tight"  *)
+(* styles in which every token is followed directly by a parenthesis and no *)
+(* blank; string tokens quoted *and* escaped (first octet, an inner octet);  *)
+(* Base 64 / hex data cut into tokens at different places.  Every case also  *)
+(* names a construction route of the reader (Routes) and, for files that     *)
+(* start with the SOA, carries what zonetree::parsed makes of the entries.   *)
 (* The oracle Logical(file) is the record list itself; the reader machine   *)
 (* of ZoneFile.tla must produce it from every layout.                       *)
 EXTENDS ZoneFile, TLC, Json
 
-CONSTANT MaxEntries
+CONSTANT MaxEntries,
+         MapDevs      \* the deviations for which generated cases carry the code's outcome (the open ones)
 
-VARIABLES file,    \* logical entries so far
+VARIABLES rv,      \* the reader checks the class (TRUE) or was built with allow_invalid()
+          file,    \* logical entries so far
           wc,      \* writer-side context (which omissions are valid)
           m,       \* reader machine (deviations Dev) after the text
           text,    \* one text that leads here (history, not in the VIEW)
           act      \* name of the last action (carried by the generated cases)
-vars == <<file, wc, m, text, act>>
-View == <<file, wc, m.en>>
+vars == <<rv, file, wc, m, text, act>>
+View == <<rv, file, wc, m.en>>
 
 S(str) == str   \* octet strings are written as tuples below
 \* labels
@@ -35,6 +42,19 @@ TxtTE == [t |-> 16, strs |-> << <<116>>, <<>> >>]                 \* "t" ""
 NsNB  == [t |-> 2, name |-> NB]
 NsNX  == [t |-> 2, name |-> NX]
 MxNA  == [t |-> 15, pref |-> 10, name |-> NA]
+\* SOA at the apex; data through the symbol converters: the text (cut into
+\* tokens by the layout) and the octets it denotes
+SoaO  == [t |-> 6, mname |-> NA, rname |-> NB, nums |-> <<1, 7200, 0, 65536, 5>>]
+\* "AQIDBA==" = 01 02 03 04;  "q80B" = ab cd 01;  hex "ABcd01f" is odd (only as literal)
+KeyD  == [t |-> 48, fields |-> <<<<50, 53, 55>>, <<51>>, <<49, 51>>>>, fwire |-> <<1, 1, 3, 13>>,
+          data |-> <<65, 81, 73, 68, 66, 65, 61, 61>>, dwire |-> <<1, 2, 3, 4>>]
+PgpD  == [t |-> 61, fields |-> <<>>, fwire |-> <<>>, data |-> <<113, 56, 48, 66>>, dwire |-> <<171, 205, 1>>]
+DsD   == [t |-> 43, fields |-> <<<<49>>, <<56>>, <<50>>>>, fwire |-> <<0, 1, 8, 2>>,
+          data |-> <<65, 66, 99, 100, 48, 49>>, dwire |-> <<171, 205, 1>>]
+\* NSEC3 1 0 5 ab 04 A TXT: salt ab, hash "04" = one octet 00 (base32hex), types A TXT
+N3D   == [t |-> 50, fields |-> <<<<49>>, <<48>>, <<53>>, <<97, 98>>, <<48, 52>>, <<65>>, <<116, 120, 116>>>>, fwire |-> <<>>,
+          data |-> <<>>, dwire |-> <<1, 0, 0, 5, 1, 171, 1, 1, 0, 3, 64, 0, 128>>]
+CnNB  == [t |-> 5, name |-> NB]
 \* SVCB / HTTPS: priority, target, an *ordered* list of parameters as written
 \* (key text, value text) and the wire form (ascending keys) it denotes
 P(k, v) == [k |-> k, v |-> v]
@@ -49,11 +69,16 @@ HttpsB == [t |-> 65, pref |-> 16, name |-> NO,
            pwire |-> <<0, 1, 0, 3, 2, 104, 51,  0, 3, 0, 2, 32, 251>>]
 RdWire(rd) ==
   IF rd.t \in {64, 65} THEN EncU16(rd.pref) \o WireOf(rd.name) \o rd.pwire
+  ELSE IF rd.t = 6 THEN WireOf(rd.mname) \o WireOf(rd.rname) \o Concat([i \in 1..5 |-> EncU32(rd.nums[i])])
+  ELSE IF rd.t \in {48, 61, 43, 50} THEN rd.fwire \o rd.dwire
+  ELSE IF rd.t = 5 THEN WireOf(rd.name)
   ELSE IF rd.t = 16 THEN Concat([i \in 1..Len(rd.strs) |-> <<Len(rd.strs[i])>> \o rd.strs[i]])
   ELSE IF rd.t = 2 THEN WireOf(rd.name)
   ELSE EncU16(rd.pref) \o WireOf(rd.name)
 
 Rec(o, ttl, rd) == [k |-> "rec", owner |-> o, class |-> 1, ttl |-> ttl, rd |-> rd]
+\* a record of another class than the file's: an error unless allow_invalid()
+RecCH == [Rec(NB, 7, [t |-> 16, strs |-> << <<116>> >>]) EXCEPT !.class = 3]
 \* literal entries: text the ideal reader must reject (the witnesses of the
 \* deviations), no layout variation
 Lit(t) == [k |-> "lit", text |-> t]
@@ -67,7 +92,11 @@ Entries == {
   Rec(NA, 3600, TxtQR), Rec(NA, 5, NsNB), Rec(NO, 3600, MxNA),
   Rec(NSP, 5, TxtTE), Rec(NAX, 7, NsNX), Rec(NB, 7, TxtT),
   Rec(NA, 3600, SvcbA), Rec(NB, 5, HttpsB),
+  Rec(NO, 3600, SoaO), Rec(NO, 7, KeyD), Rec(NA, 5, PgpD), Rec(NB, 3600, DsD), Rec(NA, 7, N3D), Rec(NA, 5, CnNB), RecCH,
   Lit(LitEmptyLabel), Lit(LitBigTtl), Lit(LitNoData) }
+
+ASSUME /\ B64Decode(KeyD.data) = DataOk(KeyD.dwire) /\ B64Decode(PgpD.data) = DataOk(PgpD.dwire)
+       /\ HexDecode(DsD.data) = DataOk(DsD.dwire)
 
 --------------------------------------------------------------------------
 (* Oracle *)
@@ -76,15 +105,21 @@ LogicalEntry(e) ==
                          rtype |-> e.rd.t, rdata |-> RdWire(e.rd)]>>
   ELSE IF e.k = "include" THEN <<[include |-> e.path, origin |-> <<>>]>>
   ELSE <<>>
-Logical(f) == [entries |-> Concat([i \in 1..Len(f) |-> LogicalEntry(f[i])]),
-               err |-> \E i \in 1..Len(f) : f[i].k = "lit"]
+\* the entry at which reading stops with an error, 0 if none: a literal, or
+\* (with class checking) a record of another class than the first record's
+Stops(f, v, i) == f[i].k = "lit" \/ (v /\ f[i].k = "rec" /\ \E j \in 1..(i - 1) : f[j].k = "rec" /\ f[j].class # f[i].class)
+StopAt(f, v) == IF \E i \in 1..Len(f) : Stops(f, v, i) THEN CHOOSE i \in 1..Len(f) : Stops(f, v, i) /\ \A j \in 1..(i - 1) : ~Stops(f, v, j) ELSE 0
+LogicalV(f, v) == LET st == StopAt(f, v)
+                      n == IF st = 0 THEN Len(f) ELSE st - 1
+                  IN [entries |-> Concat([i \in 1..n |-> LogicalEntry(f[i])]), err |-> st # 0]
+Logical(f) == LogicalV(f, rv)
 
 \* writer-side context: what may be omitted in the next entry
-WcInit == [origin |-> Origin0, lastOwner |-> <<>>, dflTtl |-> 3600, dollar |-> FALSE, classSet |-> FALSE]
+WcInit == [origin |-> Origin0, lastOwner |-> <<>>, dflTtl |-> 3600, dollar |-> FALSE, cls |-> -1]
 WcNext(w, e) ==
   IF e.k = "origin" THEN [w EXCEPT !.origin = e.name]
   ELSE IF e.k = "ttl" THEN [w EXCEPT !.dflTtl = e.v, !.dollar = TRUE]
-  ELSE IF e.k = "rec" THEN [w EXCEPT !.lastOwner = e.owner, !.classSet = TRUE,
+  ELSE IF e.k = "rec" THEN [w EXCEPT !.lastOwner = e.owner, !.cls = IF @ = -1 THEN e.class ELSE @,
                                      !.dflTtl = IF w.dollar THEN @ ELSE e.ttl]
   ELSE w
 
@@ -113,6 +148,12 @@ NameTok(labels, abs, ts) ==
   LET b == JoinDots([i \in 1..Len(labels) |-> Body(labels[i], ts, TRUE)]) \o (IF abs THEN <<DOT>> ELSE <<>>)
   IN IF ts = 2 THEN <<QUOTE>> \o b \o <<QUOTE>> ELSE b
 StrTok(o, ts) == IF ts = 2 \/ o = <<>> THEN <<QUOTE>> \o Body(o, 2, FALSE) \o <<QUOTE>> ELSE Body(o, ts, FALSE)
+\* a string token that is quoted *and* has a simple escape: at = 1 the first
+\* octet, otherwise the first octet that needs one outside quotes (or the last)
+QuoEscTok(o, at) ==
+  LET need == {i \in 1..Len(o) : NeedsEsc(o[i], FALSE)}
+      k == IF at = 1 \/ Len(o) = 1 THEN 1 ELSE IF need # {} THEN CHOOSE i \in need : \A j \in need : i <= j ELSE Len(o)
+  IN <<QUOTE>> \o Concat([i \in 1..Len(o) |-> IF i = k THEN <<BSL, o[i]>> ELSE QuoOct(o[i], FALSE)]) \o <<QUOTE>>
 
 IsUnder(n, z) == Len(n) > Len(z) /\ SubSeq(n, Len(n) - Len(z) + 1, Len(n)) = z
 \* forms in which a name may be written given the origin
@@ -123,12 +164,17 @@ NameText(n, form, origin, ts) ==
   ELSE IF ts = 2 THEN <<QUOTE, AT, QUOTE>> ELSE <<AT>>
 
 \* spacing styles
-Styles == 0..3
+\* 4 and 5 are the tight styles: no blank anywhere, every token is followed
+\* directly by a parenthesis -- 4: tok()tok()tok LF, 5: (tok)(tok)(tok) LF
+Styles == 0..5
 Gap(s)  == CASE s = 0 -> <<SP>> [] s = 1 -> <<TAB>> [] s = 2 -> <<SP, SP>> [] s = 3 -> <<SP, TAB, CR>>
+             [] s = 4 -> <<LPAR, RPAR>> [] s = 5 -> <<RPAR, LPAR>>
 Eol(s)  == CASE s = 0 -> <<LF>> [] s = 1 -> <<CR, LF>> [] s = 2 -> <<SP, SEMI, 99, 34, 40, LF>>   \* ' ;c"(' LF
-             [] s = 3 -> <<SEMI, LF>>
+             [] s = 3 -> <<SEMI, LF>> [] s = 4 -> <<LF>> [] s = 5 -> <<RPAR, LF>>
 Lead(s) == CASE s = 0 -> <<>> [] s = 1 -> <<LF>> [] s = 2 -> <<SEMI, 32, 41, LF>>                 \* '; )' LF
-             [] s = 3 -> <<SP, LF, CR, LF>>
+             [] s = 3 -> <<SP, LF, CR, LF>> [] s = 4 -> <<>> [] s = 5 -> <<>>
+\* what a line starts with: style 5 opens its first group
+Open(s) == IF s = 5 THEN <<LPAR>> ELSE <<>>
 \* the record data part, possibly wrapped in parentheses over several lines
 Wrap(s, toks) ==
   LET j(g) == Concat([i \in 1..Len(toks) |-> (IF i = 1 THEN <<>> ELSE g) \o toks[i]])
@@ -136,7 +182,9 @@ Wrap(s, toks) ==
        [] s = 1 -> j(<<TAB>>)
        [] s = 2 -> <<LPAR, LF, SP>> \o j(<<LF, TAB>>) \o <<SP, SEMI, 120, LF, RPAR>>
        [] s = 3 -> <<LPAR>> \o j(<<SP, LPAR, LF, RPAR>>) \o <<RPAR>>
-TokStyle(s) == CASE s = 0 -> 0 [] s = 1 -> 1 [] s = 2 -> 2 [] s = 3 -> 0
+       [] s = 4 -> j(<<LPAR, LF, RPAR>>)
+       [] s = 5 -> j(<<RPAR, LPAR>>)
+TokStyle(s) == CASE s = 0 -> 0 [] s = 1 -> 1 [] s = 2 -> 2 [] s = 3 -> 0 [] s = 4 -> 0 [] s = 5 -> 2
 
 \* a parameter in three spellings: key=value, key="value", "key=value";
 \* which one depends on the style and the position, so every separator of a
@@ -148,20 +196,43 @@ ParamTok(p, sp) ==
 \* spelling of the i-th parameter in style s: every separator kind meets an
 \* unquoted parameter followed by a wholly quoted one (0 -> 2), and the other
 \* successions occur in some style
+\* (a wholly quoted parameter directly behind a parenthesis would be glued
+\* to the one before it: the tight styles write the parameters unquoted)
 ParamSpelling(s) == CASE s = 0 -> <<0, 2, 1>> [] s = 1 -> <<1, 0, 2>> [] s = 2 -> <<0, 2, 0>> [] s = 3 -> <<0, 1, 2>>
+                      [] s = 4 -> <<0, 0, 0>> [] s = 5 -> <<0, 0, 0>>
+\* converter data cut into tokens: whole, two halves, groups of four, single
+\* characters, groups of three, all but the last character
+RECURSIVE Pieces(_, _)
+Pieces(d, n) == IF Len(d) <= n THEN <<d>> ELSE <<SubSeq(d, 1, n)>> \o Pieces(SubSeq(d, n + 1, Len(d)), n)
+DataToks(d, s) ==
+  IF d = <<>> THEN <<>>
+  ELSE CASE s = 0 -> <<d>>
+         [] s = 1 -> Pieces(d, (Len(d) + 1) \div 2)
+         [] s = 2 -> Pieces(d, 4)
+         [] s = 3 -> Pieces(d, 1)
+         [] s = 4 -> Pieces(d, 3)
+         [] s = 5 -> IF Len(d) = 1 THEN <<d>> ELSE <<SubSeq(d, 1, Len(d) - 1), SubSeq(d, Len(d), Len(d))>>
 RdToks(rd, origin, nform, s) ==
   IF rd.t \in {64, 65}
   THEN <<DecDigits(rd.pref), NameText(rd.name, nform, origin, TokStyle(s))>>
        \o [i \in 1..Len(rd.params) |-> ParamTok(rd.params[i], ParamSpelling(s)[i])]
   ELSE IF rd.t = 16 THEN [i \in 1..Len(rd.strs) |-> StrTok(rd.strs[i], TokStyle(s))]
-  ELSE IF rd.t = 2 THEN <<NameText(rd.name, nform, origin, TokStyle(s))>>
+  ELSE IF rd.t = 6 THEN <<NameText(rd.mname, nform, origin, TokStyle(s)), NameText(rd.rname, "abs", origin, TokStyle(s))>>
+                        \o [i \in 1..5 |-> DecDigits(rd.nums[i])]
+  ELSE IF rd.t \in {48, 61, 43, 50} THEN rd.fields \o DataToks(rd.data, s)
+  ELSE IF rd.t \in {2, 5} THEN <<NameText(rd.name, nform, origin, TokStyle(s))>>
   ELSE <<DecDigits(rd.pref), NameText(rd.name, nform, origin, TokStyle(s))>>
 \* '@' is special only in the owner position
-RdNameForms(rd, origin) == IF rd.t = 16 THEN {"abs"} ELSE (NameForms(rd.name, origin) \ {"at"})
+RdNameForms(rd, origin) == IF rd.t \in {16, 48, 61, 43, 50} THEN {"abs"}
+                           ELSE IF rd.t = 6 THEN (NameForms(rd.mname, origin) \ {"at"})
+                           ELSE (NameForms(rd.name, origin) \ {"at"})
 TypeTok(t, s) == LET n == CASE t = 16 -> <<84, 88, 84>> [] t = 2 -> <<78, 83>> [] t = 15 -> <<77, 88>>
                               [] t = 64 -> <<83, 86, 67, 66>> [] t = 65 -> <<72, 84, 84, 80, 83>>
+                              [] t = 6 -> <<83, 79, 65>> [] t = 5 -> <<67, 78, 65, 77, 69>>
+                              [] t = 48 -> <<68, 78, 83, 75, 69, 89>> [] t = 43 -> <<68, 83>>
+                              [] t = 61 -> <<79, 80, 69, 78, 80, 71, 80, 75, 69, 89>> [] t = 50 -> <<78, 83, 69, 67, 51>>
                  IN IF s = 1 THEN [i \in 1..Len(n) |-> n[i] + 32]           \* lower case
-                    ELSE IF s = 3 THEN <<84, 89, 80, 69>> \o DecDigits(t)    \* TYPEnn
+                    ELSE IF s \in {3, 4} THEN <<84, 89, 80, 69>> \o DecDigits(t)    \* TYPEnn
                     ELSE n
 
 \* all layouts of one record: [of owner form, tf TTL written, cf class written, nf rdata name form, s style]
@@ -169,29 +240,44 @@ RecLayouts(w, e) ==
   { [of |-> of, tf |-> tf, cf |-> cf, nf |-> nf, s |-> s] :
       of \in NameForms(e.owner, w.origin) \cup (IF e.owner = w.lastOwner THEN {"inherit"} ELSE {}),
       tf \in {TRUE} \cup (IF e.ttl = w.dflTtl THEN {FALSE} ELSE {}),
-      cf \in {TRUE} \cup (IF w.classSet THEN {FALSE} ELSE {}),
+      cf \in {TRUE} \cup (IF w.cls = e.class THEN {FALSE} ELSE {}),
       nf \in RdNameForms(e.rd, w.origin),
       s \in Styles }
 
 RenderRec(w, e, ly) ==
   LET g == Gap(ly.s)
-      own == IF ly.of = "inherit" THEN <<>> ELSE NameText(e.owner, ly.of, w.origin, TokStyle(ly.s))
+      \* an inherited owner is a line that starts with a blank
+      own == IF ly.of = "inherit" THEN (IF ly.s >= 4 THEN <<SP>> ELSE <<>>) ELSE NameText(e.owner, ly.of, w.origin, TokStyle(ly.s))
       ttl == IF ly.tf THEN <<DecDigits(e.ttl)>> ELSE <<>>
-      cls == IF ly.cf THEN <<IF ly.s = 1 THEN <<105, 110>> ELSE IF ly.s = 3 THEN <<67, 76, 65, 83, 83, 49>> ELSE <<73, 78>>>> ELSE <<>>
+      cname == IF e.class = 3 THEN <<67, 72>> ELSE <<73, 78>>
+      cls == IF ly.cf THEN <<IF ly.s = 1 THEN [i \in 1..2 |-> cname[i] + 32]
+                             ELSE IF ly.s \in {3, 4} THEN <<67, 76, 65, 83, 83>> \o DecDigits(e.class) ELSE cname>> ELSE <<>>
       ct == IF ly.s % 2 = 0 THEN ttl \o cls ELSE cls \o ttl
       mid == Concat([i \in 1..Len(ct) |-> ct[i] \o g])
-  IN Lead(ly.s) \o own \o g \o mid \o TypeTok(e.rd.t, ly.s) \o g
-     \o Wrap(ly.s, RdToks(e.rd, w.origin, ly.nf, ly.s)) \o Eol(ly.s)
+      rdt == RdToks(e.rd, w.origin, ly.nf, ly.s)
+  IN Lead(ly.s) \o (IF ly.of = "inherit" THEN own \o Open(ly.s) ELSE Open(ly.s) \o own) \o g \o mid \o TypeTok(e.rd.t, ly.s)
+     \o (IF rdt = <<>> THEN <<>> ELSE g \o Wrap(ly.s, rdt)) \o Eol(ly.s)
 
 DirLayouts == {[s |-> s] : s \in Styles}
 RenderDir(w, e, ly) ==
   LET g == Gap(ly.s) ts == TokStyle(ly.s) IN
   IF e.k = "origin"
-  THEN Lead(ly.s) \o (IF ly.s = 1 THEN <<36, 111, 114, 105, 103, 105, 110>> ELSE W_ORIGIN) \o g
+  THEN Lead(ly.s) \o Open(ly.s) \o (IF ly.s = 1 THEN <<36, 111, 114, 105, 103, 105, 110>> ELSE W_ORIGIN) \o g
        \o NameText(e.name, "abs", w.origin, IF ts = 2 THEN 0 ELSE ts) \o Eol(ly.s)
   ELSE IF e.k = "ttl"
-  THEN Lead(ly.s) \o (IF ly.s = 1 THEN <<36, 116, 116, 108>> ELSE W_TTL) \o g \o DecDigits(e.v) \o Eol(ly.s)
-  ELSE Lead(ly.s) \o W_INCLUDE \o g \o StrTok(e.path, IF ts = 1 THEN 0 ELSE ts) \o Eol(ly.s)   \* no \\ddd in a path (scan_string)
+  THEN Lead(ly.s) \o Open(ly.s) \o (IF ly.s = 1 THEN <<36, 116, 116, 108>> ELSE W_TTL) \o g \o DecDigits(e.v) \o Eol(ly.s)
+  \* no \\ddd in a path or a control word (scan_string).  The path: escaped,
+  \* quoted with its first octet escaped, quoted, quoted with an inner escape;
+  \* the control word: plain, quoted with an escape inside, quoted
+  ELSE Lead(ly.s) \o Open(ly.s)
+       \o (CASE ly.s = 3 -> <<QUOTE, 36, 73, 78, 67, 76, 85, BSL, 68, 69, QUOTE>>          \* "$INCLU\DE"
+              [] ly.s = 5 -> <<QUOTE>> \o W_INCLUDE \o <<QUOTE>>
+              [] OTHER -> W_INCLUDE)
+       \o g
+       \o (CASE ly.s = 1 -> QuoEscTok(e.path, 1)
+              [] ly.s \in {3, 5} -> QuoEscTok(e.path, 2)
+              [] OTHER -> StrTok(e.path, ts))
+       \o Eol(ly.s)
 
 LayoutsOf(w, e) == IF e.k = "rec" THEN RecLayouts(w, e)
                    ELSE IF e.k = "lit" THEN {[s |-> 0]} ELSE DirLayouts
@@ -199,36 +285,44 @@ Render(w, e, ly) == IF e.k = "rec" THEN RenderRec(w, e, ly)
                     ELSE IF e.k = "lit" THEN e.text ELSE RenderDir(w, e, ly)
 
 --------------------------------------------------------------------------
-ReaderInit(dv) == RdInit(WireOf(Origin0), -1)
+ReaderInit(v) == RdInitV(WireOf(Origin0), -1, v)
 
-Init == /\ file = <<>> /\ wc = WcInit /\ m = ReaderInit(Dev) /\ text = <<>> /\ act = "Init"
+Init == /\ rv \in BOOLEAN /\ file = <<>> /\ wc = WcInit /\ m = ReaderInit(rv) /\ text = <<>> /\ act = "Init"
 
-Ended(f) == \E i \in 1..Len(f) : f[i].k = "lit"
+Ended(f) == StopAt(f, rv) # 0
+\* without class checking only files with the record of the other class are of interest
+HasOther(f) == \E i \in 1..Len(f) : f[i] = RecCH
+Wanted(f) == rv \/ HasOther(f) \/ Len(f) < MaxEntries
 
 \* the metamorphic law, checked on every transition (every layout)
 Conforms(f, mm) == Outcome(mm, Dev) = Logical(f)
 
-CodeOutcome(t, d) == ReadAll(t, WireOf(Origin0), -1, {d})
+CodeOutcome(t, d) == ReadAllV(t, WireOf(Origin0), -1, rv, {d})
 DevMap(t, o) ==
-  LET diff == {d \in AllDevs : CodeOutcome(t, d) # o} IN
+  LET diff == {d \in MapDevs : CodeOutcome(t, d) # o} IN
   IF diff = {} THEN [none |-> TRUE]
   ELSE IF Cardinality(diff) > 1 \/ (\E d \in diff : CodeOutcome(t, d) = Unmodelled) THEN [skip |-> TRUE]
   ELSE LET d == CHOOSE x \in diff : TRUE IN [x \in {d} |-> CodeOutcome(t, x)]
 
 EmitCase(t, o, a) ==
   LET dm == DevMap(t, o)
-      inp == [text |-> t, origin |-> WireOf(Origin0), class |-> -1, act |-> a]
+      \* every route occurs with every kind of entry: it follows the length
+      route == Routes[(Len(t) % Len(Routes)) + 1]
+      inp == [text |-> t, origin |-> WireOf(Origin0), class |-> -1, act |-> a,
+              route |-> route, chunk |-> 1 + (Len(t) % 7), allow_invalid |-> ~rv, parsed |-> TRUE]
+      WithParsed(x) == IF DOMAIN x = {"entries", "err"} THEN [entries |-> x.entries, err |-> x.err, parsed |-> ParsedOf(x)] ELSE x
   IN IF "skip" \in DOMAIN dm THEN TRUE
-     ELSE IF "none" \in DOMAIN dm THEN PrintT("CASE " \o ToJson([in |-> inp, exp |-> o]))
-     ELSE PrintT("CASE " \o ToJson([in |-> inp, exp |-> o, dev |-> dm]))
+     ELSE IF "none" \in DOMAIN dm THEN PrintT("CASE " \o ToJson([in |-> inp, exp |-> WithParsed(o)]))
+     ELSE PrintT("CASE " \o ToJson([in |-> inp, exp |-> WithParsed(o), dev |-> [d \in DOMAIN dm |-> WithParsed(dm[d])]]))
 
 Step(e, ly, emit, a) ==
   LET t == Render(wc, e, ly)
       m2 == FeedAll(m, t, 1, Dev)
       f2 == Append(file, e)
-  IN /\ Dev # {} \/ Assert(Conforms(f2, m2), <<"layout changes the logical content", text \o t, f2>>)
+  IN /\ Wanted(f2)
+     /\ Dev # {} \/ Assert(Conforms(f2, m2), <<"layout changes the logical content", text \o t, f2>>)
      /\ (emit => EmitCase(text \o t, Logical(f2), a))
-     /\ file' = f2 /\ wc' = WcNext(wc, e) /\ m' = m2 /\ text' = text \o t /\ act' = a
+     /\ file' = f2 /\ wc' = WcNext(wc, e) /\ m' = m2 /\ text' = text \o t /\ act' = a /\ UNCHANGED rv
 
 \* one action per entry shape of the reader ---------------------------------
 StepOf(kinds, forms, emit, a) ==
@@ -256,6 +350,6 @@ Metamorphic == Conforms(file, m)
 ReaderContextAgrees ==     \* the reader's inherited context is the writer's
   ~Ended(file) => /\ m.en.origin = WireOf(wc.origin)
                   /\ (wc.lastOwner # <<>> => m.en.lastOwner = WireOf(wc.lastOwner))
-                  /\ (wc.classSet <=> m.en.lastClass = 1)
+                  /\ m.en.lastClass = wc.cls
                   /\ m.en.toks = <<>> /\ m.tk.par = 0 /\ m.tk.m = "gap"
 =============================================================================
